@@ -41,6 +41,7 @@ def check(chk):
                        "Requests arriving inside queue events beyond the freshness rule are not decided.")
     game = repo.cls(GM, G)
     run = repo.func(GM, G + "._run")
+    _drain_chain(chk, repo)
     _game_end_waits(chk)
 
     # ------------------------------------------------------------ TRACE-1
@@ -463,6 +464,59 @@ def check(chk):
     chk.ob("PAIR-7", "game_ended is the last thing the game run posts", bool(last), eg_.where(), construct=eg_.ident, text="game_ended last")
 
 
+def _drain_chain(chk, repo):
+    """DRAIN-6: the route from a ball entering a drain device to the game's ball count: the ball controller listens on the entrance event
+    of every device tagged drain or trough (exactly those), relays the *unclaimed* balls as `ball_drain`, and the game subtracts what the
+    relay left - whatever it is, only nothing when nothing is left - through the clamping setter and hands the number back."""
+    from sa.cfg import canon_set, canon_fact
+    from sa.helpers import inloop_guards, positive
+    BC = "mpf/core/ball_controller.py"
+    f = repo.func(BC, "BallController._initialize")
+    chk.analysed(f)
+    cfg = f.cfg()
+    ah = [(n, c) for n, c in cfg.calls_named("add_handler") if any(src(a) == "self._ball_drained_handler" for a in c.args)]
+    lps = [h for h in cfg.nodes if h.kind == "loop"]
+    chk.need(len(ah) == 1 and len(lps) == 1, "DRAIN-6", "the ball controller registers its drain handler per device", f)
+    n, c = ah[0]
+    got = positive(inloop_guards(cfg, n.id, lps[0].id, compound=True))
+    want = positive({canon_fact("'drain' in device.tags or 'trough' in device.tags", True)})
+    chk.ob("DRAIN-6", "the drain handler listens at exactly the devices tagged drain or trough", got == want and src(lps[0].ast.iter) == "self.machine.ball_devices.values()",
+           f.where(c), detail="selected by %s" % sorted(got), construct=f.ident, text="drain handler selection")
+    ev = src(c.args[0]).replace('"', "'").replace(" ", "")
+    chk.ob("DRAIN-6", "it listens on the device's own ball_enter event", ev in ("'balldevice_'+device.name+'_ball_enter'", "'balldevice_{}_ball_enter'.format(device.name)"),
+           f.where(c), detail=ev, construct=f.ident, text="drain handler event")
+    h = repo.func(BC, "BallController._ball_drained_handler")
+    chk.analysed(h)
+    pr = [c for c in h.calls() if call_attr(c) == "post_relay" and c.args and const_value(c.args[0]) == "ball_drain"]
+    ok = len(pr) == 1 and kwarg(pr[0], "balls") is not None and src(kwarg(pr[0], "balls")) == "unclaimed_balls" and kwarg(pr[0], "device") is not None and \
+        src(kwarg(pr[0], "device")) == "device"
+    ok = ok and not [x for x in walk_local(h.node) if isinstance(x, (ast.If, ast.Return)) ]
+    chk.ob("DRAIN-6", "every entrance is relayed as ball_drain with the balls nobody claimed (not the new or the total count)", ok, h.where(), construct=h.ident,
+           text="ball_drain relay")
+    sb = repo.func(GM, G + "._start_ball")
+    scfg = sb.cfg()
+    reg = [(n, c) for n, c in scfg.calls_named("add_mode_event_handler") if c.args and const_value(c.args[0]) == "ball_drain"]
+    bip = [n for n in scfg.nodes if n.kind == "stmt" and isinstance(n.ast, ast.Assign) and src(n.ast.targets[0]) == "self.balls_in_play"]
+    ok = len(reg) == 1 and src(reg[0][1].args[1]) == "self.ball_drained" and not scfg.guards_at(reg[0][0].id) and len(bip) == 1 and \
+        scfg.must_pass(scfg.entry.id, [reg[0][0].id], ends=[bip[0].id]) is None
+    chk.ob("DRAIN-6", "each ball listens for ball_drain before its first ball is counted in play", ok, sb.where(), construct=sb.ident, text="ball_drain listener")
+    ok = ok and len(reg[0][1].args) == 2 and not [k for k in reg[0][1].keywords if k.arg == "priority"]
+    chk.ob("DRAIN-6", "the game takes what is left of the relay (default priority: after the devices that claim balls)", ok, sb.where(), construct=sb.ident,
+           text="ball_drain listener priority")
+    bd = repo.func(GM, G + ".ball_drained")
+    bcfg = bd.cfg()
+    sub = [n for n in bcfg.nodes if n.kind == "stmt" and isinstance(n.ast, ast.AugAssign) and src(n.ast.target) == "self.balls_in_play"]
+    ok = len(sub) == 1 and positive(set(canon_set(bcfg.guards_at(sub[0].id)))) == positive({canon_fact("balls", True)})
+    chk.ob("DRAIN-6", "whatever the relay left is subtracted (only `nothing left` skips it)", ok, bd.where(), construct=bd.ident, text="drain subtract guard")
+    rets = [x for x in walk_local(bd.node) if isinstance(x, ast.Return)]
+    ok = len(rets) == 1 and isinstance(rets[0].value, ast.Dict) and [const_value(k) for k in rets[0].value.keys] == ["balls"] and src(rets[0].value.values[0]) == "balls"
+    chk.ob("DRAIN-6", "the relay goes on with the same number", ok, bd.where(), construct=bd.ident, text="drain relay result")
+    sig = [a.arg for a in bd.node.args.args]
+    dflt = [src(d) for d in bd.node.args.defaults]
+    chk.ob("DRAIN-6", "ball_drained(balls=0, **kwargs)", sig == ["self", "balls"] and dflt == ["0"] and bd.node.args.kwarg is not None, bd.where(), construct=bd.ident,
+           text="drain signature")
+
+
 def _awaited(fn, call):
     for x in ast.walk(fn):
         if isinstance(x, ast.Await) and x.value is call:
@@ -522,6 +576,10 @@ def battery():
         M("stopped game mode leaves its coroutine running", "mpf/core/async_mode.py", "        super()._stopped()\n\n        if self._task:\n            self._task.cancel()\n            self._task = None", "        super()._stopped()", "PAIR-7"),
         M("finished coroutine does not stop the mode", "mpf/core/async_mode.py", "        # stop mode\n        self.stop()", "        # stop mode\n        pass", "PAIR-7"),
         M("coroutine failures swallowed", "mpf/core/async_mode.py", "            future.result()\n        except asyncio.CancelledError:", "            pass\n        except asyncio.CancelledError:", "PAIR-7"),
+        M("drain handler only at devices tagged drain", "mpf/core/ball_controller.py", "            if 'drain' in device.tags or 'trough' in device.tags:  # device is used to drain balls from pf", "            if 'drain' in device.tags:  # device is used to drain balls from pf", "DRAIN-6"),
+        M("all new balls relayed as drained", "mpf/core/ball_controller.py", "    def _ball_drained_handler(self, new_balls: int, unclaimed_balls: int, device: BallDevice, **kwargs) -> None:\n        del kwargs\n        del new_balls\n        self.machine.events.post_relay('ball_drain',\n                                       device=device,\n                                       balls=unclaimed_balls)", "    def _ball_drained_handler(self, new_balls: int, unclaimed_balls: int, device: BallDevice, **kwargs) -> None:\n        del kwargs\n        del unclaimed_balls\n        self.machine.events.post_relay('ball_drain',\n                                       device=device,\n                                       balls=new_balls)", "DRAIN-6"),
+        M("game takes drains before claiming devices", GM, "        self.add_mode_event_handler('ball_drain', self.ball_drained)", "        self.add_mode_event_handler('ball_drain', self.ball_drained, priority=1000)", "DRAIN-6"),
+        M("single drains only", GM, "        if balls:\n            self.debug_log(\"Processing %s newly-drained ball(s)\", balls)", "        if balls == 1:\n            self.debug_log(\"Processing %s newly-drained ball(s)\", balls)", "DRAIN-6"),
     ]
 
 
